@@ -59,9 +59,15 @@ type tcpConnectionActor struct {
 }
 
 func (c *tcpConnectionActor) OnReceive(ctx vivid.ActorContext) {
-	switch ctx.Message().(type) {
+	switch m := ctx.Message().(type) {
 	case *vivid.OnLaunch:
 		c.onLaunch(ctx)
+	case *vivid.OnKilled:
+		// 连接 Actor 终止即连接生命周期结束，必须释放套接字并标记为已关闭：
+		// 否则对端优雅关闭（或读取失败）之后套接字永不关闭，Mailbox 仍认为连接可用并持续向无人读取的连接写入，消息无声丢失且描述符泄漏
+		if m.Ref.Equals(ctx.Ref()) {
+			c.release()
+		}
 	case net.Conn:
 		// 消息读取失败仅作回调，不影响连接的正常使用
 		// 假设连接需要关闭，内部会自动关闭连接
@@ -231,6 +237,14 @@ func (c *tcpConnectionActor) Close() error {
 	}
 	// 设置读超时
 	return c.conn.SetReadDeadline(time.Now().Add(1 * time.Second))
+}
+
+// release 标记连接已关闭并释放底层套接字，在连接 Actor 终止时调用。
+func (c *tcpConnectionActor) release() {
+	c.writeCloseLock.Lock()
+	defer c.writeCloseLock.Unlock()
+	c.closed = true
+	_ = c.conn.Close()
 }
 
 // Closed 返回连接是否已关闭。
